@@ -222,6 +222,15 @@ def _anchor_files_all(prop):
     return []
 
 
+# files a property's behaviour runs through although its anchors do not list them (the pack is silent on them today)
+EXTRA_FILES = {
+    "C07": ["src/pkgcore/restrictions/boolean.py", "src/pkgcore/ebuild/conditionals.py", "src/pkgcore/ebuild/restricts.py"],
+    "C08": ["src/pkgcore/restrictions/boolean.py", "src/pkgcore/ebuild/cpv.py"],
+    "C16": ["src/pkgcore/resolver/state.py", "src/pkgcore/repository/misc.py"],
+    "C14": ["src/pkgcore/ebuild/conditionals.py"],
+}
+
+
 def hygiene(ctx):
     """Rule G: structural hazards that break "the result depends on the stated inputs only" wherever they occur —
     shifted optional flags, closures outliving their loop iteration, single-pass iterables consumed twice, %-templates
@@ -236,7 +245,8 @@ def hygiene(ctx):
     ctx.require(not fails, "generic pack self-test: " + "; ".join(fails))
     ctx.ob("G", "self-test", f"{n_ex} analyses of the generic pack each flag their positive example and leave the repaired twin alone (examples are parsed, not run)", file="sa/core/lint_selftest.py")
     bash_scope(ctx, "G")
-    files = [f for f in anchor_files(ctx.prop) if f in ctx.program.by_rel]
+    files = [f for f in anchor_files(ctx.prop) + EXTRA_FILES.get(ctx.prop, []) if f in ctx.program.by_rel]
+    files = list(dict.fromkeys(files))
     if not files:
         return
     arg_binding(ctx, "G", files)
